@@ -338,6 +338,9 @@ class DigestCredentialFactory:
             key = base64.b64decode(opaqueParts[1])
         except ValueError:  # binascii.Error is a ValueError
             raise error.LoginFailed("Invalid response, invalid opaque value")
+        if base64.b64encode(key) != opaqueParts[1]:
+            # Not the text we issued: b64decode skips foreign characters.
+            raise error.LoginFailed("Invalid response, invalid opaque value")
         keyParts = key.split(b",")
 
         if len(keyParts) != 3:
